@@ -7,6 +7,7 @@ package main
 // assertion.
 
 import (
+	"encoding/hex"
 	"fmt"
 	"sort"
 	"strings"
@@ -49,7 +50,7 @@ type pathState struct {
 	discharged  int
 	concreteOK  int
 	sitesHit    map[string]int
-	observed    []string
+	observed    []value // strings (possibly symbolic), evaluated under the final model
 	unknowns    []string
 	asyncFailure interface{}
 	pendingViolation *Violation
@@ -206,34 +207,68 @@ func (ps *pathState) assume(cond *Term) {
 	ps.addPC(cond)
 }
 
-// model returns the current model of all declared inputs (PC must be sat).
-func (ps *pathState) model(extra ...*Term) (map[string]uint64, map[string]string, bool) {
+// model returns the current model of all declared inputs (PC must be sat),
+// the readable ndString values, and the observation log evaluated under it.
+func (ps *pathState) model(extra ...*Term) (map[string]uint64, map[string]string, []string, bool) {
 	r := ps.solver.Check(extra...)
 	if r != "sat" {
-		return nil, nil, false
+		return nil, nil, nil, false
 	}
-	raw := ps.solver.Model(ps.vars)
+	q := append([]*Term{}, ps.vars...)
+	seen := map[*Term]bool{}
+	for _, v := range q {
+		seen[v] = true
+	}
+	for _, o := range ps.observed {
+		if s, ok := o.(symS); ok {
+			for _, c := range s.b {
+				if ci, ok := c.(symI); ok && !seen[ci.t] {
+					seen[ci.t] = true
+					q = append(q, ci.t)
+				}
+			}
+		}
+	}
+	raw := ps.solver.Model(q)
 	m := map[string]uint64{}
 	for _, v := range ps.vars {
-		m[strings.Trim(v.name, "|")] = raw[v.name]
+		m[strings.Trim(v.name, "|")] = raw[v.ref()]
 	}
 	strs := map[string]string{}
 	for name, bs := range ps.strVars {
 		b := make([]byte, len(bs))
 		for k, t := range bs {
-			b[k] = byte(raw[t.name])
+			b[k] = byte(raw[t.ref()])
 		}
 		strs[name] = string(b)
 	}
-	return m, strs, true
+	var obs []string
+	for _, o := range ps.observed {
+		switch o := o.(type) {
+		case string:
+			obs = append(obs, hex.EncodeToString([]byte(o)))
+		case symS:
+			b := make([]byte, len(o.b))
+			for k, c := range o.b {
+				switch c := c.(type) {
+				case uint8:
+					b[k] = c
+				case symI:
+					b[k] = byte(raw[c.t.ref()])
+				}
+			}
+			obs = append(obs, hex.EncodeToString(b))
+		}
+	}
+	return m, strs, obs, true
 }
 
 func (ps *pathState) violation(kind, site, msg string, extra ...*Term) *Violation {
 	v := &Violation{Harness: ps.harness, Site: site, Kind: kind, Msg: msg, Tag: ps.tag,
-		Decisions: traceString(ps.trace), Observed: ps.observed}
-	m, strs, ok := ps.model(extra...)
+		Decisions: traceString(ps.trace)}
+	m, strs, obs, ok := ps.model(extra...)
 	if ok {
-		v.Model, v.Strings = m, strs
+		v.Model, v.Strings, v.Observed = m, strs, obs
 	} else {
 		v.Msg += " [model unavailable]"
 	}
